@@ -271,11 +271,47 @@ def check_script(acc, case):
 
 
 def plan(tier, seed_value):
-    return progbase.plan(ID, tier, seed_value, quick=4800, thorough=200000)
+    specs = progbase.plan(ID, tier, seed_value, quick=4800, thorough=200000)
+    specs.append({'kind': 'negative-literals'})
+    return specs
+
+
+# A negative number is a value like any other: the manual writes [ceil -1.5]
+# and hue -5 without braces.
+NEGATIVE = [('print -5 println -1.5', '-5 -1.5\n'),
+            ('println -0.25', '-0.25\n'),
+            ('printf "{} {}" -5 -2.5 println', '-5 -2.5\n'),
+            ('print 1 print -2 println -3', '1 -2 -3\n'),
+            ('define f with q begin return -1 end println [f 0]', '-1\n'),
+            ('assign v -7 println v', '-7\n'),
+            ('define m -4 println m', '-4\n')]
+
+
+def check_negative(acc, text, want):
+    from verif.harness import World
+    world = World(POP, output='stdout')
+    buffer = io.StringIO()
+    job = world.compile(text)
+    case = {'kind': 'negative', 'text': text, 'want': want}
+    acc.case(key=text, nontrivial=True, labels=['negative-literal'],
+             sample={'script': text} if len(acc.samples) < 2 else None)
+    if job.program is None:
+        acc.fail('negative-literal:rejected', '{!r} was rejected: {}'.format(
+            text, job.compile_errors.strip()), case)
+        return
+    with contextlib.redirect_stdout(buffer):
+        job.execute()
+    if buffer.getvalue() != want:
+        acc.fail('negative-literal:text', '{!r} wrote {!r}, expected {!r}'
+                 .format(text, buffer.getvalue(), want), case)
 
 
 def run_shard(spec):
     acc = Acc()
+    if spec.get('kind') == 'negative-literals':
+        for text, want in NEGATIVE:
+            check_negative(acc, text, want)
+        return acc
 
     @seed(spec['seed'])
     @progbase.hyp_settings(spec['examples'])
@@ -287,6 +323,10 @@ def run_shard(spec):
 
 
 def replay(case):
+    if case.get('kind') == 'negative':
+        acc = Acc()
+        check_negative(acc, case['text'], case['want'])
+        return [(f['sig'], f['what']) for f in acc.failures.values()]
     acc = Acc()
     check_script(acc, case['case'])
     return [(f['sig'], f['what']) for f in acc.failures.values()]
